@@ -4,6 +4,7 @@ mod common;
 mod fam_apoll;
 mod fam_arf;
 mod fam_aadapters;
+mod fam_asrv;
 
 use common::*;
 use std::io::{BufRead, Write};
@@ -28,6 +29,7 @@ fn main() {
             22 => fam_arf::run_arf(&mut c, &mut out),
             23 => fam_aadapters::run_achain(&mut c, &mut out),
             24 => fam_aadapters::run_atake(&mut c, &mut out),
+            26 => fam_asrv::run_asrv(&mut c, &mut out),
             _ => {}
         }
         let mut first = true;
